@@ -144,3 +144,221 @@ func nodeCloseWaits(c *Ctx, rule string) {
 		c.Fail(rule, "close-waits", cl.Pos(), "no production caller of RaftNode.Close found")
 	}
 }
+
+// ---- native slices are copied out in full --------------------------------------------
+//
+// Keys and values come out of RocksDB as native slices that must be copied before they are
+// freed: `buf := make([]byte, s.Size()); copy(buf, s.Data())`. The buffer has to be sized by
+// the same native slice whose data it receives; sizing it by another one (the key's size for
+// the value) truncates or pads what the caller gets.
+func nativeSliceCopies(c *Ctx, rule string, pkgs []string) {
+	p := c.P
+	inPkgs := map[*ssa.Package]bool{}
+	for _, pk := range pkgs {
+		if sp := p.SSAPkg[modPkg(pk)]; sp != nil {
+			inPkgs[sp] = true
+		}
+	}
+	n, bad := 0, 0
+	for _, fn := range p.ModFuncs {
+		if !inPkgs[fn.Pkg] || !p.Production(fn) {
+			continue
+		}
+		fn := fn
+		eachInstr(fn, func(in ssa.Instruction) {
+			cc := callCommon(in)
+			if cc == nil {
+				return
+			}
+			if b, ok := cc.Value.(*ssa.Builtin); !ok || b.Name() != "copy" {
+				return
+			}
+			src := p.TermOf(cc.Args[1])
+			if !(src.Op == "call" && src.Fn != nil && src.Fn.Name() == "Data" && src.Fn.Pkg != nil && strings.HasSuffix(src.Fn.Pkg.Pkg.Path(), "/rocksdb") && len(src.Args) == 1) {
+				return
+			}
+			n++
+			dst := p.TermOf(cc.Args[0])
+			ok := dst.Op == "alloc" && len(dst.Args) > 0 && dst.Args[0].Op == "call" && dst.Args[0].Fn != nil && dst.Args[0].Fn.Name() == "Size" && len(dst.Args[0].Args) == 1 &&
+				dst.Args[0].Args[0].V == src.Args[0].V
+			if !ok {
+				bad++
+				got := dst.String()
+				if dst.Op == "alloc" && len(dst.Args) > 0 {
+					got = "a buffer of length " + dst.Args[0].String()
+				}
+				c.Fail(rule, funcName(fn)+":native-copy", in.Pos(), "the data of "+src.Args[0].String()+" is copied into "+got+": the buffer is not sized by the same native slice, so the caller receives a truncated or padded key/value")
+			}
+		})
+	}
+	if n == 0 {
+		c.Fail(rule, "native-copy", 0, "no copy out of a native RocksDB slice found")
+	} else if bad == 0 {
+		c.Ok(rule, "native-copy", 0, fmt.Sprintf("%d copy-out site(s), each into a buffer sized by the slice it copies", n))
+	}
+}
+
+// ---- a write batch lives for one call ---------------------------------------------------
+//
+// db.Write(opts, batch) must be given a batch created in the same call (NewWriteBatch /
+// WriteBatchFrom). A batch kept in a field survives a failed Write with its content: the next
+// call writes the failed call's operations again on top of its own.
+func freshWriteBatches(c *Ctx, rule string, pkgs []string) {
+	p := c.P
+	inPkgs := map[*ssa.Package]bool{}
+	for _, pk := range pkgs {
+		if sp := p.SSAPkg[modPkg(pk)]; sp != nil {
+			inPkgs[sp] = true
+		}
+	}
+	n := 0
+	for _, fn := range p.ModFuncs {
+		if !inPkgs[fn.Pkg] || !p.Production(fn) {
+			continue
+		}
+		fn := fn
+		rg := p.RegionOf(outermost(fn), 2)
+		eachInstr(fn, func(in ssa.Instruction) {
+			cc := callCommon(in)
+			if cc == nil || cc.StaticCallee() == nil || cc.StaticCallee().Name() != "Write" || cc.StaticCallee().Pkg == nil || !strings.HasSuffix(cc.StaticCallee().Pkg.Pkg.Path(), "/rocksdb") || len(cc.Args) != 3 {
+				return
+			}
+			n++
+			bt := rg.TermIn(in, cc.Args[2])
+			fresh := false
+			for _, alt := range bt.Alts() {
+				a := alt.Strip()
+				if a.Op == "call" && a.Fn != nil && (a.Fn.Name() == "NewWriteBatch" || a.Fn.Name() == "WriteBatchFrom") {
+					if v, ok := a.V.(ssa.Instruction); ok && len(rg.sites[v.Parent()]) > 0 {
+						fresh = true
+						continue
+					}
+				}
+				fresh = false
+				break
+			}
+			c.Check(fresh, rule, funcName(fn)+":batch", in.Pos(), "the batch written was created in this call", "the batch handed to db.Write is "+bt.String()+", not one created in this call: a batch that outlives the call keeps the operations of a failed write and replays them with the next one")
+		})
+	}
+	if n == 0 {
+		c.Fail(rule, "write-batches", 0, "no db.Write call found")
+	}
+}
+
+// ---- iterators see deletions ---------------------------------------------------------------
+//
+// DeleteRange leaves a range tombstone; read options that ignore range deletions make the
+// bounds of the log (and any scan) report entries that were removed.
+func readOptionsSeeDeletions(c *Ctx, rule string) {
+	p := c.P
+	has := false
+	if nt := p.NamedType("rocksdb", "ReadOptions"); nt != nil {
+		for i := 0; i < nt.NumMethods(); i++ {
+			if nt.Method(i).Name() == "SetIgnoreRangeDeletions" {
+				has = true
+			}
+		}
+	}
+	c.Control("rocksdb.ReadOptions.SetIgnoreRangeDeletions is part of the wrapper's API", has)
+	n, bad := 0, 0
+	for _, fn := range p.ModFuncs {
+		if !p.Production(fn) || fn.Pkg == nil || strings.HasSuffix(fn.Pkg.Pkg.Path(), "/rocksdb") {
+			continue
+		}
+		fn := fn
+		eachInstr(fn, func(in ssa.Instruction) {
+			cc := callCommon(in)
+			if cc == nil || cc.StaticCallee() == nil || cc.StaticCallee().Name() != "SetIgnoreRangeDeletions" {
+				return
+			}
+			n++
+			arg := p.TermOf(cc.Args[len(cc.Args)-1])
+			if !(arg.Op == "const" && arg.Name == "false") {
+				bad++
+				c.Fail(rule, funcName(fn)+":ignore-range-deletions", in.Pos(), "read options are told to ignore range deletions: iterators created with them still see entries removed by DeleteRange (stale first/last index, resurrected entries)")
+			}
+		})
+	}
+	if bad == 0 {
+		c.Ok(rule, "read-options-see-deletions", 0, fmt.Sprintf("%d call(s) of SetIgnoreRangeDeletions in production code, none enabling it", n))
+	}
+}
+
+// ---- the persisted cache tiles follow the in-memory cache ------------------------------
+//
+// Every time a tile of the recovery level is put into the in-memory cache its new content is
+// also persisted; RebuildCache (after a restart or a restore from a backup) trusts the
+// persisted tiles. Persisting a tile only under a further condition (first time only, every
+// n-th time) leaves stale tiles behind a node that keeps running correctly.
+func cacheTilesPersistedAlways(c *Ctx, rule string) {
+	p := c.P
+	sp := p.SSAPkg[modPkg(pkgHyper)]
+	n := 0
+	for _, fn := range p.ModFuncs {
+		if fn.Pkg != sp || !p.Production(fn) {
+			continue
+		}
+		fn := fn
+		eachInstr(fn, func(in ssa.Instruction) {
+			cc := callCommon(in)
+			if cc == nil || cc.StaticCallee() == nil || cc.StaticCallee().Name() != "NewMutation" || len(cc.Args) != 3 || tableName(p, p.TermOf(cc.Args[0])) != "HyperCacheTable" {
+				return
+			}
+			n++
+			var extra []string
+			for _, k := range p.CondsAt(in.Block()) {
+				a := k.Atom
+				if a.Op == "EQ" && (isErrorTerm(a.Args[0]) || isErrorTerm(a.Args[1])) {
+					continue
+				}
+				if a.Op == "EQ" && k.Pol && (a.Args[0].IsField("Height", nil) && a.Args[1].IsField("RecoveryHeight", nil) || a.Args[1].IsField("Height", nil) && a.Args[0].IsField("RecoveryHeight", nil)) {
+					continue
+				}
+				extra = append(extra, k.String())
+			}
+			c.Check(len(extra) == 0, rule, funcName(fn)+":tile-persisted", in.Pos(), "a recovery-level tile is persisted whenever it is cached", "the cache tile is persisted only under "+strings.Join(extra, " ∧ ")+": the in-memory cache is updated on every insertion but the persisted tile is not, so a restart, a backup or a restore rebuilds the cache from stale tiles")
+		})
+	}
+	if n == 0 {
+		c.Fail(rule, "hyper:tile-persisted", 0, "no step persisting cache tiles (HyperCacheTable) found")
+	}
+}
+
+// ---- a restore replaces the directory's content ------------------------------------------
+//
+// Restoring a backup over an existing database directory must not keep the write-ahead logs
+// that are there: they would be replayed on open and bring back what the backup did not contain.
+func restoreDropsOldLogs(c *Ctx, rule string) {
+	p := c.P
+	has := false
+	if nt := p.NamedType("rocksdb", "RestoreOptions"); nt != nil {
+		for i := 0; i < nt.NumMethods(); i++ {
+			if nt.Method(i).Name() == "SetKeepLogFiles" {
+				has = true
+			}
+		}
+	}
+	c.Control("rocksdb.RestoreOptions.SetKeepLogFiles is part of the wrapper's API", has)
+	n, bad := 0, 0
+	for _, fn := range p.ModFuncs {
+		if !p.Production(fn) || fn.Pkg == nil || strings.HasSuffix(fn.Pkg.Pkg.Path(), "/rocksdb") {
+			continue
+		}
+		fn := fn
+		eachInstr(fn, func(in ssa.Instruction) {
+			cc := callCommon(in)
+			if cc == nil || cc.StaticCallee() == nil || cc.StaticCallee().Name() != "SetKeepLogFiles" {
+				return
+			}
+			n++
+			arg := p.TermOf(cc.Args[len(cc.Args)-1])
+			if !(arg.Op == "const" && arg.Name == "0") {
+				bad++
+				c.Fail(rule, funcName(fn)+":keep-log-files", in.Pos(), "the restore is told to keep the existing write-ahead logs: restoring over a node's directory replays what was written after the backup, so the restored log is not the log as of the backup's version")
+			}
+		})
+	}
+	if bad == 0 {
+		c.Ok(rule, "restore-drops-old-logs", 0, fmt.Sprintf("%d call(s) of SetKeepLogFiles in production code, none keeping logs", n))
+	}
+}
